@@ -10,6 +10,7 @@ def run(tier, seed, limit=0):
     if limit:
         scs = scs[:limit]
     chk.run_scenarios(scs, "Trace_VscRand", nontrivial=lambda r: any(e.get("cbs") for e in r["events"]))
+    chk.run_mc("B_UsedRand", {"MaxLevel": 4 if tier == "quick" else 6}, label="is_used_rand mechanics |= UsedRand")
     return chk.finish(LEVEL, "random object trees (3 levels, object lists, rand/non-rand members) x call kinds (method, with, free on "
                       "object and sub-object roots, free_with) x pre_randomize callbacks assigning non-random fields; TLC checks "
                       "pre/post once each on exactly the used-random composites, order, values seen; non-trivial = has callback events",
